@@ -164,7 +164,7 @@ func c02Atoms() []c02Atom {
 	// specials around the empty literal
 	out = append(out, c02Atom{gen.Bin(">=", K(), gen.Str("")), "opaque", true})
 	out = append(out, c02Atom{gen.Bin("<=", K(), gen.Str("")), "le", true})
-	out = append(out, c02Atom{gen.Bin("^=", K(), gen.Str("")), "prefix", false})
+	out = append(out, c02Atom{gen.Bin("^=", K(), gen.Str("")), "prefix", true})
 	// opaque atoms
 	out = append(out, c02Atom{gen.Bin("=", gen.Value(), gen.Str("x")), "opaque", true})
 	out = append(out, c02Atom{gen.Call("is_int", gen.Value()), "opaque", false})
@@ -446,7 +446,7 @@ func (k c02) judgeTree(c *rt.Ctx, tree *gen.Node, endToEnd bool) {
 		return
 	}
 	probe := &rt.Ctx{Prop: c.Prop, Tier: c.Tier, Seed: c.Seed, Case: c.Case, R: c.R.Fork(), Rec: rt.NewRec(), Avoid: c.Avoid}
-	small := shrinkBool(tree, func(p *gen.Node) bool { return k.judge(probe, p, endToEnd, nil) == oracle }, 40)
+	small := shrinkBool(tree, func(p *gen.Node) bool { return k.judge(probe, p, endToEnd, nil) == oracle }, 200)
 	k.judge(c, tree, endToEnd, small)
 }
 
